@@ -1897,6 +1897,7 @@ class QueryRetrieveServiceClass(ServiceClass):
                     LOGGER.error("Received invalid dataset from callback")
                     # Count as a sub-operation failure
                     store_results[1] += 1
+                    store_results[0] -= 1
                     failed_instances.append("")
                     rsp.Identifier = None
                     rsp.NumberOfRemainingSuboperations = store_results[0]
